@@ -175,6 +175,9 @@ func c04EnvFor(tmpl string) map[string]interface{} {
 	if c04ImMentions(tmpl) {
 		c04ImEnv(m)
 	}
+	if c04MuMentions(tmpl) {
+		c04MuEnv(m)
+	}
 	return m
 }
 
